@@ -52,7 +52,7 @@ class ClientLog:
     def ev(self, event, arg=None):
         self.events.append((self.clock.now, event, arg))
         if self.on_event:
-            self.on_event(event, arg)
+            return self.on_event(event, arg)       # may return an awaitable (asyncio client)
 
 
 # ---------------------------------------------------------------------------------------------
@@ -373,13 +373,19 @@ class AClientHarness:
         self.client = engineio.AsyncClient(http_session=self.session, **kw)
 
         async def on_connect():
-            self.log.ev('connect')
+            r = self.log.ev('connect')
+            if asyncio.iscoroutine(r):
+                await r
 
         async def on_message(d):
-            self.log.ev('message', d)
+            r = self.log.ev('message', d)
+            if asyncio.iscoroutine(r):
+                await r
 
-        async def on_disconnect(r):
-            self.log.ev('disconnect', r)
+        async def on_disconnect(reason):
+            r = self.log.ev('disconnect', reason)
+            if asyncio.iscoroutine(r):
+                await r
         self.client.on('connect', on_connect)
         self.client.on('message', on_message)
         self.client.on('disconnect', on_disconnect)
